@@ -184,7 +184,9 @@ def combinator_block(draw, c, spec, kind):
     if kind == "repeat":
         cs = []
         if draw(st.integers(0, 5)):
-            cs.append({"kind": "min", "k": draw(st.sampled_from([T1 + 1, 2 * T1 - 1, 2 * T1, 2 * T1 + 1, 3 * T1]))})
+            p1 = T1 - 1 if any(d["name"] in first["crossing"] and d["kind"] != "within" for d in derived) else 0
+            S1 = max(1, T1 - p1)
+            cs.append({"kind": "min", "k": draw(st.sampled_from([T1 + 1, 2 * T1 - 1, 2 * T1, 2 * T1 + 1, 3 * T1, p1 + 3 * S1, p1 + 3 * S1 + 1, p1 + 2 * S1]))})
         tmp = {"type": "repeat", "block": first, "constraints": list(cs)}
         for _ in range(draw(st.integers(0, 1))):
             if no_excl:
@@ -212,6 +214,8 @@ def combinator_block(draw, c, spec, kind):
             else:
                 first = {"type": "nest", "outer": first, "inner": second, "constraints": [], "alignment": None}
                 inner = third
+    if inner is second and draw(st.integers(0, 3)) == 0:
+        second["constraints"].append({"kind": "min", "k": 2 * T2})       # an inner block of two passes over its crossing
     cs = [draw(constraint(c, dict(spec, block=second), T1 * T2, names, kinds=all_kinds)) for _ in range(draw(st.integers(0, 1)))]
     return {"type": "nest", "outer": first, "inner": inner, "constraints": cs, "alignment": None}
 
@@ -267,6 +271,8 @@ SCENARIO_FEATURES = (
     "run-length", "pin", "exactly-k",
     "repeat-leftover",                   # Repeat(block, [MinimumTrials(non-multiple)])
     "uncrossed-transition",              # an uncrossed Transition factor with a constraint on it
+    "strided-window-constrained",        # an uncrossed Window with stride 2-3 that a constraint keeps in the encoding
+    "repeat-three",                      # Repeat to three (or three and a bit) repetitions
 )
 
 
@@ -315,6 +321,15 @@ def scenario_spec(draw, c=None):
         dfac("Z", [draw(st.sampled_from(["A", "B"]))], "transition", width=2)
         constraints.append({"kind": draw(st.sampled_from(["atmost", "exclude", "exactly_k"])), "factor": "Z",
                             "level": "z%d" % draw(st.integers(0, 1)), "k": draw(st.integers(1, 2))})
+    if "strided-window-constrained" in feats:
+        d = dfac("V", [draw(st.sampled_from(["A", "B"]))], "window", width=draw(st.integers(1, 2)))
+        d["stride"] = draw(st.integers(2, 3))
+        d["start"] = draw(st.sampled_from([None, None, 1, 2, 3]))
+        if d["start"] is not None and d["start"] < d["width"] - 1:
+            d["start"] = None
+        constraints.append({"kind": draw(st.sampled_from(["exclude", "exactly_k", "pin"])), "factor": "V",
+                            "level": "v%d" % draw(st.integers(0, 1)), "k": draw(st.integers(1, 2)), "index": draw(st.integers(-2, 3))})
+        rcc = False if constraints[-1]["kind"] == "exclude" else rcc
     names = [f["name"] for f in factors] + [d["name"] for d in derived]
     spec = {"factors": factors, "derived": derived}
     if "exclude-crossed-basic" in feats:
@@ -347,12 +362,20 @@ def scenario_spec(draw, c=None):
         constraints.append({"kind": "min", "k": T + draw(st.integers(1, max(1, Sz - 1)))})
     elif "min-multiple" in feats:
         constraints.append({"kind": "min", "k": T + Sz})
+    for x in constraints:
+        if x["kind"] == "exclude":
+            x.pop("k", None), x.pop("index", None)
+        elif x["kind"] == "pin":
+            x.pop("k", None)
+            x.setdefault("index", 0)
+        elif x["kind"] in ("exactly_k", "atmost", "atleast", "exactly_row"):
+            x.pop("index", None)
     block["constraints"] = constraints
-    if "repeat-leftover" in feats and block["type"] == "cross":
+    if ("repeat-leftover" in feats or "repeat-three" in feats) and block["type"] == "cross":
         inner_cons = [x for x in constraints if x["kind"] not in ("min",)]
         block["constraints"] = inner_cons
-        spec["block"] = {"type": "repeat", "block": block,
-                         "constraints": [{"kind": "min", "k": T + draw(st.integers(1, max(1, 2 * Sz - 1)))}]}
+        extra = (2 * Sz + draw(st.integers(0, 1))) if "repeat-three" in feats else draw(st.integers(1, max(1, 2 * Sz - 1)))
+        spec["block"] = {"type": "repeat", "block": block, "constraints": [{"kind": "min", "k": T + extra}]}
     if c.get("aux"):
         spec["aux"] = draw(st.integers(0, 2 ** 30))
     spec["scenario"] = sorted(feats)
